@@ -23,8 +23,6 @@ import (
 // cookies are interchangeable, so only sequences that use k0 before k1 and c0
 // before c1 are run (canonical representatives).
 
-const nSym = 15
-
 var enumKeys = []uint64{3, 1<<40 + 9}
 var enumCookies = [2]uint32{0x1a2b3c4d, 0x99999999}
 
@@ -118,51 +116,70 @@ func runSeq(t failer, s *storage.Store, vid needle.VolumeId, seq []int) (m *mach
 	return m, nil
 }
 
+// enumPlan: all sequences of exactly `length` symbols drawn from `alphabet`.
+type enumPlan struct {
+	name     string
+	alphabet []int
+	length   int
+}
+
+func enumPlans() []enumPlan {
+	full := []int{0, 1, 2, 3, 4, 5, 6, 7, 8, 9, 10, 11, 12, 13, 14}
+	oneKey := []int{0, 1, 2, 3, 4, 5, 12, 14} // W(k0,*,*), D(k0), R
+	if vlib.Thorough() {
+		return []enumPlan{{"2-keys-length-4", full, 4}, {"1-key-length-5", oneKey, 5}}
+	}
+	return []enumPlan{{"2-keys-length-3", full, 3}}
+}
+
 func TestPropSequencesExhaustive(t *testing.T) {
-	length := vlib.Pick(3, 5)
 	dir := vlib.TempDir()
 	defer os.RemoveAll(dir)
 	s := newStore(dir, storage.NeedleMapInMemory)
 	defer s.Close()
-	total := 1
-	for i := 0; i < length; i++ {
-		total *= nSym
+	ran := 0
+	for _, plan := range enumPlans() {
+		length, na := plan.length, len(plan.alphabet)
+		total := 1
+		for i := 0; i < length; i++ {
+			total *= na
+		}
+		seq := make([]int, length)
+		canon := 0
+		for i := 0; i < total; i++ {
+			x := i
+			for j := length - 1; j >= 0; j-- {
+				seq[j] = plan.alphabet[x%na]
+				x /= na
+			}
+			if !canonical(seq) {
+				continue
+			}
+			canon++
+			if !vlib.ShardOwns(canon) {
+				continue
+			}
+			m, err := runSeq(t, s, needle.VolumeId(1+ran%900), seq)
+			ran++
+			var ex excluded
+			if errors.As(err, &ex) {
+				vlib.Excluded(ex.key)
+				continue
+			}
+			names := make([]string, length)
+			for j, sy := range seq {
+				names[j] = symName(sy)
+			}
+			cls := []string{"enumerated-" + plan.name}
+			for c := range m.classes {
+				cls = append(cls, c)
+			}
+			sortStrings(cls[1:])
+			vlib.Case("enum: "+strings.Join(names, " "), m.rewrote, cls...)
+		}
+		vlib.Note(fmt.Sprintf("C01 bounded enumeration %s: all %d sequences of length %d over %d symbols, %d canonical representatives (keys/cookies up to renaming)", plan.name, total, length, na, canon))
+		vlib.Exhaustive("op-sequences-"+plan.name, true)
 	}
-	seq := make([]int, length)
-	canon, ran := 0, 0
-	for i := 0; i < total; i++ {
-		x := i
-		for j := length - 1; j >= 0; j-- {
-			seq[j] = x % nSym
-			x /= nSym
-		}
-		if !canonical(seq) {
-			continue
-		}
-		canon++
-		if !vlib.ShardOwns(canon) {
-			continue
-		}
-		m, err := runSeq(t, s, needle.VolumeId(1+ran%900), seq)
-		ran++
-		var ex excluded
-		if errors.As(err, &ex) {
-			vlib.Excluded(ex.key)
-			continue
-		}
-		names := make([]string, length)
-		for j, sy := range seq {
-			names[j] = symName(sy)
-		}
-		cls := []string{"enumerated-sequence"}
-		for c := range m.classes {
-			cls = append(cls, c)
-		}
-		sortStrings(cls[1:])
-		vlib.Case("enum: "+strings.Join(names, " "), m.rewrote, cls...)
-	}
-	vlib.Note(fmt.Sprintf("C01 bounded enumeration (%s tier): all %d sequences of length %d over 15 symbols, %d canonical representatives (keys/cookies up to renaming)", vlib.Tier(), total, length, canon))
-	vlib.Exhaustive(fmt.Sprintf("op-sequences-length-%d", length), true)
 }
 
 // ------------------------------------------------------------------ finding probes
